@@ -626,7 +626,7 @@ impl SubsetTable<'_> for VarColorStop {
                 return Err(s.set_err(SerializeErrorFlags::SERIALIZE_ERROR_OTHER));
             };
             // update VarIdxBase
-            s.embed(*new_varidx)?;
+            return s.embed(*new_varidx).map(|_| ());
         }
         s.embed(varidx_base).map(|_| ())
     }
